@@ -101,21 +101,14 @@ abbrev Sched := Atom → List Nat
     left; when the code runs out the rest keeps its order.  Total, always a permutation, every permutation has a code
     (`[]` = source order = the engine without the hook). -/
 def permute {α : Type} : List Nat → List α → List α
-  | _, [] => []
   | [], l => l
+  | _ :: _, [] => []
   | i :: is, x :: xs =>
     let l := x :: xs
     let j := i % l.length
     match l[j]? with
     | some y => y :: permute is (l.eraseIdx j)
     | none => l      -- unreachable (j < length)
-termination_by _ l => l.length
-decreasing_by
-  simp only [List.length_eraseIdx]
-  split
-  · simp
-  · rename_i h
-    exact absurd (Nat.mod_lt _ (by simp)) h
 
 def liftB {α} (r : Except Formula.Err α) : Except Err α :=
   match r with
@@ -246,5 +239,15 @@ def Clause.bodyAtoms : Clause → List Atom
 /-- every body atom of every clause of `a` has a smaller rank than `a` -/
 def acyclicB (P : Prog) (rk : Atom → Nat) : Bool :=
   P.defs.all (fun (a, cs) => cs.all (fun c => c.bodyAtoms.all (fun b => rk b < rk a)))
+
+def nodupB : List Nat → Bool
+  | [] => true
+  | x :: xs => !xs.contains x && nodupB xs
+
+/-- All hypotheses of the theorems about the program (`ProbLogProofs.GroundSem.WfP`), decided: distinct goals in
+    `defs`, goals `< natoms`, ranks decrease along bodies, no clause with an empty body. -/
+def wfB (P : Prog) (natoms : Nat) (rk : Atom → Nat) : Bool :=
+  nodupB (P.defs.map (·.1)) && P.defs.all (fun d => decide (d.1 < natoms)) && acyclicB P rk &&
+    P.defs.all (fun d => d.2.all (fun c => c != Clause.rule [] none))
 
 end ProbLogModel.GroundAcyclic
